@@ -369,7 +369,8 @@ def second_src() -> str:
     """A second document, assembled from objects, for the classes the all-features document does not reach: sibling
     containers that both match, (A or B) and (C or D) criteria, a context calibrator keyed on the parameter's own raw
     value (0 included), a step spline queried at its last point, the XTCE 1.1 spelling `twosCompliment`, a length lookup
-    whose first entry is only partly satisfied."""
+    whose first entry is only partly satisfied, a 64-bit integer that is not byte-aligned, a criterion on an enumeration
+    label that looks like a boolean, and a zero-length field that ends the packet."""
     E, C, M = X.E, X.C, X.M
     params = []
     for n, w in X.HEADER:
@@ -384,20 +385,34 @@ def second_src() -> str:
         "Z": f'parameter_types.IntegerParameterType("Z_T", {E}.IntegerDataEncoding(8, "unsigned", context_calibrators=[{own}]))',
         "S0": f'parameter_types.IntegerParameterType("S0_T", {E}.IntegerDataEncoding(8, "unsigned", default_calibrator={step}))',
         "TC": f'parameter_types.IntegerParameterType("TC_T", {X._int(16, "twosCompliment")})',
+        "NIB": f'parameter_types.IntegerParameterType("NIB_T", {X._int(4)})',
+        "W64": f'parameter_types.IntegerParameterType("W64_T", {X._int(64)})',
+        "NIB2": f'parameter_types.IntegerParameterType("NIB2_T", {X._int(4)})',
+        "EN": f'parameter_types.EnumeratedParameterType("EN_T", {X._int(8)}, {{0: "FALSE", 1: "TRUE", 2: "MAYBE"}})',
         "LB": f'parameter_types.BinaryParameterType("LB_T", {E}.BinaryDataEncoding(size_discrete_lookup_list={lookups}))',
         "PA": f'parameter_types.IntegerParameterType("PA_T", {X._int(8)})',
         "PB": f'parameter_types.IntegerParameterType("PB_T", {X._int(8)})',
+        "PT": f'parameter_types.IntegerParameterType("PT_T", {X._int(8)})',
+        "ZB": f'parameter_types.BinaryParameterType("ZB_T", {E}.BinaryDataEncoding(size_reference_parameter="PT"))',
     }
     for n, t in types.items():
         params.append(f'parameters.Parameter("{n}", {t})')
     crit_a = (f"[{M}.BooleanExpression({M}.Anded([], [{M}.Ored([{M}.Condition('K', '==', right_value='1', right_use_calibrated_value=False), {M}.Condition('K', '==', right_value='2', right_use_calibrated_value=False)], []), "
               f"{M}.Ored([{M}.Condition('Z', '==', right_value='0', left_use_calibrated_value=False, right_use_calibrated_value=False), "
               f"{M}.Condition('Z', '>=', right_value='3', left_use_calibrated_value=False, right_use_calibrated_value=False)], [])]))]")
+    root = [n for n, _ in X.HEADER] + ["K", "Z", "S0", "TC", "NIB", "W64", "NIB2", "EN", "LB"]
     return f"""(lambda P: XtcePacketDefinition([
-        containers.SequenceContainer("CCSDSPacket", [P[n] for n in {[n for n, _ in X.HEADER] + ["K", "Z", "S0", "TC", "LB"]!r}]),
+        containers.SequenceContainer("CCSDSPacket", [P[n] for n in {root!r}]),
         containers.SequenceContainer("CH_A", [P["PA"]], base_container_name="CCSDSPacket", restriction_criteria={crit_a}),
         containers.SequenceContainer("CH_B", [P["PB"]], base_container_name="CCSDSPacket", restriction_criteria=[{M}.Comparison("2", "K")]),
+        containers.SequenceContainer("CH_T", [P["PT"], P["ZB"]], base_container_name="CH_B", restriction_criteria=[{M}.Comparison("TRUE", "EN")]),
       ], ns={{"xtce": "{X.URI}"}}, xtce_ns_prefix="xtce"))({{p.name: p for p in [{", ".join(params)}]}})"""
+
+
+def pack_second(k, z, s0, tc, nib, w64, nib2, en, lb: bytes, tail: bytes = b"") -> bytes:
+    bits = f"{k:08b}{z:08b}{s0:08b}{tc & 0xFFFF:016b}{nib:04b}{w64:064b}{nib2:04b}{en:08b}" + "".join(f"{x:08b}" for x in lb + tail)
+    assert len(bits) % 8 == 0
+    return int(bits, 2).to_bytes(len(bits) // 8, "big")
 
 
 def ref_second(user: bytes):
@@ -412,6 +427,15 @@ def ref_second(user: bytes):
     assert xs[0] <= s0r <= xs[-1], "reference: S0 outside the spline"
     items.append(("S0", "Float", ys[max(i for i in range(3) if xs[i] <= s0r)], s0r))
     items.append(("TC", "Int", tc, tc))
+    nib = b.u(4)
+    items.append(("NIB", "Int", nib, nib))
+    w64 = b.u(64)
+    items.append(("W64", "Int", w64, w64))
+    nib2 = b.u(4)
+    items.append(("NIB2", "Int", nib2, nib2))
+    en = b.u(8)
+    assert en in (0, 1, 2), "reference: EN unlisted"
+    items.append(("EN", "Str", {0: "FALSE", 1: "TRUE", 2: "MAYBE"}[en], en))
     if k == 1 and z == 0:
         nb = 8
     elif k == 1 and z >= 1:
@@ -432,6 +456,11 @@ def ref_second(user: bytes):
     elif bb:
         v = b.u(8)
         items.append(("PB", "Int", v, v))
+        if en == 1:                       # the label 'TRUE' is an ordinary enumeration label
+            pt = b.u(8)
+            items.append(("PT", "Int", pt, pt))
+            zb = b.bytes_left(pt)
+            items.append(("ZB", "Binary", zb, zb))
     return "ok", items
 
 
@@ -445,13 +474,17 @@ def end_to_end_second(ctx: Ctx, RULE: str = "R1.e2"):
     except Raised as r:
         ctx.refuted(RULE, f"{GEN}::second document", f"the checker's second document cannot be assembled: {r.exc.tname} {r.exc.args}")
         return
+    W = 0xFEDCBA9876543211
     cases = [
-        ("(K=1 or K=2) and (Z=0 or Z>=3): second alternative of the second group; own-value context does not apply; spline at its last point; negative twosCompliment; 16-bit lookup after a partly satisfied entry",
-         bytes([1, 3, 20, 0xFF, 0xFE, 0xAB, 0xCD, 7])),
-        ("both sibling containers match (K=2, Z=0): unrecognized; own-value context calibrator at raw 0", bytes([2, 0, 10, 0x00, 0x01, 0x11, 9])),
-        ("only the second sibling matches (K=2, Z=1); spline at an inner point", bytes([2, 1, 10, 0x7F, 0xFF, 0x22, 9])),
-        ("first group and first alternative of the second group (K=1, Z=0); most negative twosCompliment; spline between points", bytes([1, 0, 15, 0x80, 0x00, 0x33, 4])),
-        ("second group false (K=1, Z=1): the concrete root ends the packet; spline at its first point", bytes([1, 1, 0, 0x00, 0x00, 0x44, 0x55])),
+        ("(K=1 or K=2) and (Z=0 or Z>=3): second alternative of the second group; own-value context does not apply; spline at its last point; negative twosCompliment; unaligned 64-bit integer; 16-bit lookup after a partly satisfied entry",
+         pack_second(1, 3, 20, 0xFFFE, 0xA, W, 5, 2, b"\xab\xcd", bytes([7]))),
+        ("both sibling containers match (K=2, Z=0): unrecognized; own-value context calibrator at raw 0", pack_second(2, 0, 10, 1, 0, 1, 0xF, 0, b"\x11", bytes([9]))),
+        ("only the second sibling matches (K=2, Z=1); enumeration label TRUE selects the grandchild; zero-length field ends the packet",
+         pack_second(2, 1, 10, 0x7FFF, 0xF, 2 ** 64 - 1, 0, 1, b"\x22", bytes([9, 0]))),
+        ("first group and first alternative of the second group (K=1, Z=0); most negative twosCompliment; spline between points", pack_second(1, 0, 15, 0x8000, 1, 2 ** 63, 1, 0, b"\x33", bytes([4]))),
+        ("second group false (K=1, Z=1): the concrete root ends the packet; spline at its first point", pack_second(1, 1, 0, 0, 0, 0, 0, 2, b"\x44\x55")),
+        ("grandchild with an 8-bit trailing field (K=2, Z=1, EN=TRUE)", pack_second(2, 1, 20, -1, 3, W, 12, 1, b"\x66", bytes([3, 8, 0x5A]))),
+        ("enumeration label FALSE: the child but not the grandchild (K=2, Z=2)", pack_second(2, 2, 5, 5, 7, 7, 7, 0, b"\x77", bytes([6]))),
     ]
     for report in (False, True):
         for desc, user in cases:
